@@ -108,6 +108,7 @@ def da_attr_models():
         ("DataArray", "chunks"): lambda ev, o, n: TOP,
         ("DataArray", "data"): lambda ev, o, n: TOP,
         ("DataArray", "name"): lambda ev, o, n: o.attrs.get("name", TOP),
+        ("DataArray", "ndim"): lambda ev, o, n: len(o.attrs["dims"]) if "dims" in o.attrs else TOP,
     }
 
 
